@@ -1,1 +1,229 @@
-(* C07 stub: to be written *)
+(* C07 — shape algebra of epgpy's vectorised operators, and the vectorised run of the 1-D model.
+   Mirrors (faithfully, defects included):
+     epgpy/common.py     expand_shapes, broadcastable, broadcast_shapes, set_axes (+ numpy.expand_dims)
+     epgpy/opscalar.py   scalar_prod  : arr[(...,) + (NAX,)*ndim + (SL,)] if ndim > 1 else arr[..., NAX, :]
+     epgpy/opmatrix.py   matrix_prod  : same insertion; in-place matmul(mat, states,
+                                         axes=[(-2,-1),(-1,-2),(-1,-2)], out=states) with ValueError fall-back
+                                         matmul(mat, states[..., NAX])[..., 0]
+     epgpy/operator.py   Operator.prepare (broadcastable(append=True) check + StateMatrix.expand)
+     epgpy/functions.py  getshape, StateMatrix(shape=getshape(seq)), output stacking of simulate
+   numpy rules modelled: right-aligned broadcasting of two shapes, which element of an operand a
+   result index reads ([np_proj]), acceptance of an in-place ufunc / of a gufunc [out=] operand.
+   Shapes are [list nat]; an index is a [list nat] of the same length.  The trailing coefficient
+   axis (3, or 3x3 core) is the same on both operands and is left out; the phase-state axis [ns]
+   is kept because it is the axis the new-axis insertion is about.
+   Uses NdArray.bc_dim / shape_eqb (numpy "source dim broadcasts to target dim"). *)
+From Coq Require Import List ZArith Lia Bool Arith.
+From EPG Require Import Scalar State Ops NdArray.
+Import ListNotations.
+
+Definition shape := list nat.
+
+Fixpoint map2 {A B C} (f : A -> B -> C) (x : list A) (y : list B) : list C :=
+  match x, y with
+  | a :: x', b :: y' => f a b :: map2 f x' y'
+  | _, _ => []
+  end.
+
+Fixpoint sequence {A} (l : list (option A)) : option (list A) :=
+  match l with
+  | [] => Some []
+  | None :: _ => None
+  | Some a :: r => match sequence r with Some r' => Some (a :: r') | None => None end
+  end.
+
+(* ------------------------------------------------------------------ epgpy.common *)
+Definition maxlen (ss : list shape) : nat := fold_right (fun s m => Nat.max (length s) m) 0 ss.
+Definition pad_app (n : nat) (s : shape) : shape := s ++ repeat 1 (n - length s).
+Definition pad_pre (n : nat) (s : shape) : shape := repeat 1 (n - length s) ++ s.
+
+(* expand_shapes(shapes.., append) ; (python raises on an empty argument list: max([])) *)
+Definition expand_shapes (append : bool) (ss : list shape) : list shape :=
+  map (if append then pad_app (maxlen ss) else pad_pre (maxlen ss)) ss.
+
+(* i-th tuple of zip over the shapes *)
+Definition col (i : nat) (ss : list shape) : list nat := map (fun s => nth i s 1) ss.
+
+(* len(set(dims) - {1}) <= 1 *)
+Definition non1 (dims : list nat) : list nat := filter (fun d => negb (d =? 1)) dims.
+Definition all_same (l : list nat) : bool :=
+  match l with [] => true | d :: r => forallb (Nat.eqb d) r end.
+
+Definition broadcastable (append : bool) (ss : list shape) : bool :=
+  let es := expand_shapes append ss in
+  forallb (fun i => all_same (non1 (col i es))) (seq 0 (maxlen ss)).
+
+(* broadcast_shapes: dims = {shape[i] for shape in shapes if shape[i] > 1};
+   none -> 1 ; two different -> ValueError (None) ; else that size.
+   NB the filter is [> 1] here and [- {1}] in broadcastable: they differ on 0-sized axes. *)
+Definition gt1 (dims : list nat) : list nat := filter (fun d => 1 <? d) dims.
+Definition bs_col (dims : list nat) : option nat :=
+  match gt1 dims with
+  | [] => Some 1
+  | d :: r => if forallb (Nat.eqb d) r then Some d else None
+  end.
+Definition broadcast_shapes (append : bool) (ss : list shape) : option shape :=
+  let es := expand_shapes append ss in
+  sequence (map (fun i => bs_col (col i es)) (seq 0 (maxlen ss))).
+
+(* numpy.expand_dims(arr, newdims): result rank |s| + |newdims|; axis i is new iff i in newdims *)
+Definition mem (i : nat) (l : list nat) : bool := existsb (Nat.eqb i) l.
+Fixpoint expand_dims_aux (fuel i : nat) (s : shape) (nd : list nat) : shape :=
+  match fuel with
+  | 0 => []
+  | S f => if mem i nd then 1 :: expand_dims_aux f (S i) s nd
+           else match s with d :: s' => d :: expand_dims_aux f (S i) s' nd | [] => [] end
+  end.
+Definition expand_dims (s : shape) (nd : list nat) : shape :=
+  expand_dims_aux (length s + length nd) 0 s nd.
+
+(* set_axes(ndim=core, arr, axes): axes int a -> range(a, a + nbatch); tuple as given;
+   newdims = [i for i in range(max(axes)) if i not in axes]; expand_dims(arr, newdims).
+   The shape [s] includes the [core] trailing coefficient axes. *)
+Definition set_axes (core : nat) (s : shape) (axes : nat + list nat) : option shape :=
+  let nb := length s - core in
+  let ax := match axes with inl a => seq a nb | inr l => l end in
+  match ax with
+  | [] => None                                (* max(()) raises ValueError *)
+  | _ => let m := fold_right Nat.max 0 ax in
+         Some (expand_dims s (filter (fun i => negb (mem i ax)) (seq 0 m)))
+  end.
+
+(* ------------------------------------------------------------------ numpy broadcasting *)
+(* two dims: equal, or one of them is 1 (NdArray.bc_dim s t = "s broadcasts to t") *)
+Definition np_bdim (a b : nat) : option nat :=
+  if bc_dim a b then Some b else if bc_dim b a then Some a else None.
+(* right-aligned broadcast of two shapes; None = "operands could not be broadcast together" *)
+Definition np_bshape (s t : shape) : option shape :=
+  let n := Nat.max (length s) (length t) in
+  sequence (map2 np_bdim (pad_pre n s) (pad_pre n t)).
+
+(* which element of an operand of shape [s] does result index [idx] read:
+   the last |s| components of idx, 0 on the operand's singleton axes
+   (idx is left-padded with 0 when shorter: an [out=] operand of lower rank) *)
+Definition sel (d i : nat) : nat := if d =? 1 then 0 else i.
+Definition align_r (n : nat) (idx : list nat) : list nat :=
+  repeat 0 (n - length idx) ++ skipn (length idx - n) idx.
+Definition np_proj (s : shape) (idx : list nat) : list nat := map2 sel s (align_r (length s) idx).
+
+(* what the property demands: axis i of the operand = axis i of the result (append semantics) *)
+Definition aproj (s : shape) (idx : list nat) : list nat :=
+  map2 sel s (idx ++ repeat 0 (length s - length idx)).
+
+(* in-place ufunc  out *= x : the broadcast shape must be exactly out's shape *)
+Definition np_inplace_ok (out x : shape) : bool :=
+  match np_bshape out x with Some r => shape_eqb r out | None => false end.
+(* gufunc [out=] operand with loop shape [out] against broadcast loop shape [r]:
+   out is left-padded with new axes; every padded axis must have size 1 in r
+   ("output operand requires a reduction" otherwise), the others must match. *)
+Definition np_out_ok (r out : shape) : bool :=
+  (length out <=? length r) && shape_eqb r (repeat 1 (length r - length out) ++ out).
+
+(* ------------------------------------------------------------------ scalar_prod / matrix_prod *)
+(* A = operator batch shape (arr.shape[:-1] / mat.shape[:-2]), B = state batch shape.
+   ndim = states.ndim - arr.ndim = |B| + 1 - |A| (same number for matrix_prod);
+   inserted axes: ndim if ndim > 1 else 1  *)
+Definition ins (A B : shape) : shape :=
+  A ++ repeat 1 (Nat.max 1 (S (length B) - length A)).
+
+(* element-wise product / fall-back matmul: loop shapes  ins A B  vs  B ++ [ns] *)
+Definition prod_shape (A B : shape) (ns : nat) : option shape := np_bshape (ins A B) (B ++ [ns]).
+Definition prod_op (A B : shape) (idx : list nat) : list nat :=
+  firstn (length A) (np_proj (ins A B) idx).
+Definition prod_st (B : shape) (ns : nat) (idx : list nat) : list nat := np_proj (B ++ [ns]) idx.
+(* scalar_prod in place (states *= arr) is accepted iff the product shape is the state's shape;
+   the fall-back states * arr has the same alignment *)
+Definition scalar_inplace_ok (A B : shape) (ns : nat) : bool :=
+  np_inplace_ok (B ++ [ns]) (ins A B).
+
+(* matrix_prod, in-place branch: the phase-state axis of [states] is a CORE dimension
+   (axes (-1,-2)), so the loop shapes are  ins A B  vs  B , and out = states has loop shape B *)
+Definition mp_inplace_ok (A B : shape) : bool :=
+  match np_bshape (ins A B) B with Some r => np_out_ok r B | None => false end.
+Definition mp_inplace_op (A B : shape) (bidx : list nat) : list nat :=
+  firstn (length A) (np_proj (ins A B) bidx).
+
+Definition all_ones (A : shape) : bool := forallb (Nat.eqb 1) A.
+
+(* result batch shape, operator element and state element read at batch index [bidx].
+   [q] = "the in-place matmul branch exists" (finding switch: true on the pinned tree);
+   [ismat] = the operator is a MatrixOp; ns = number of phase states (any value) *)
+Record prodinfo := mkPI { pi_shape : shape; pi_op : list nat -> list nat; pi_st : list nat -> list nat }.
+Definition vprod (q ismat : bool) (A B : shape) (ns : nat) : option prodinfo :=
+  if q && ismat && mp_inplace_ok A B
+  then Some (mkPI B (mp_inplace_op A B) (np_proj B))
+  else match prod_shape A B ns with
+       | Some r => Some (mkPI (removelast r)
+                              (fun bidx => prod_op A B (bidx ++ [0]))
+                              (fun bidx => removelast (prod_st B ns (bidx ++ [0]))))
+       | None => None
+       end.
+
+(* Operator.prepare: ValueError unless broadcastable(sm.shape, op.shape, append=True);
+   sm.expand(op.ndim) appends singleton axes *)
+Definition prepare (A B : shape) : option shape :=
+  if broadcastable true [B; A]
+  then Some (if length B <? length A then pad_app (length A) B else B)
+  else None.
+
+(* functions.getshape *)
+Definition getshape (shapes : list shape) : option shape := broadcast_shapes true shapes.
+(* shape of simulate(seq) with one probe: (n_acquisitions,) + final state-matrix shape *)
+Definition simulate_shape (nacq : nat) (final : shape) : shape := nacq :: final.
+
+(* ------------------------------------------------------------------ vectorised run of the 1-D model *)
+Section VRun.
+Variable S : ScalOps.
+
+(* an operator with array-valued coefficients: batch shape + the scalar operator at each index *)
+Record vop := mkVop { vshape : shape; vget : list nat -> op S; vmat : bool }.
+(* a batched state matrix *)
+Record vsm := mkVsm { bshape : shape; sget : list nat -> sm S }.
+
+Definition vapply (q : bool) (ns : nat) (o : vop) (s : vsm) : option vsm :=
+  match prepare (vshape o) (bshape s) with
+  | None => None
+  | Some B' =>
+      match vprod q (vmat o) (vshape o) B' ns with
+      | None => None
+      | Some p => Some (mkVsm (pi_shape p)
+                    (fun idx => apply (vget o (pi_op p idx))
+                                      (sget s (firstn (length (bshape s)) (pi_st p idx)))))
+      end
+  end.
+
+Fixpoint vrun (q : bool) (ns : nat) (ops : list vop) (s : vsm) : option vsm :=
+  match ops with
+  | [] => Some s
+  | o :: r => match vapply q ns o s with Some s' => vrun q ns r s' | None => None end
+  end.
+
+(* the scalar run at grid index idx: every operator with that index's coefficients *)
+Definition scalar_ops (ops : list vop) (idx : list nat) : list (op S) :=
+  map (fun o => vget o (aproj (vshape o) idx)) ops.
+
+End VRun.
+
+Arguments mkVop {S}. Arguments vshape {S}. Arguments vget {S}. Arguments vmat {S}.
+Arguments mkVsm {S}. Arguments bshape {S}. Arguments sget {S}.
+Arguments vapply {S}. Arguments vrun {S}. Arguments scalar_ops {S}.
+
+(* ------------------------------------------------------------------ verdict helpers for the correspondence *)
+Definition oshape_eqb (a b : option shape) : bool :=
+  match a, b with
+  | Some x, Some y => shape_eqb x y
+  | None, None => true
+  | _, _ => false
+  end.
+Fixpoint lshape_eqb (a b : list shape) : bool :=
+  match a, b with
+  | [], [] => true
+  | x :: a', y :: b' => shape_eqb x y && lshape_eqb a' b'
+  | _, _ => false
+  end.
+(* all indices of a shape, row-major *)
+Fixpoint indices (s : shape) : list (list nat) :=
+  match s with
+  | [] => [[]]
+  | d :: r => flat_map (fun i => map (cons i) (indices r)) (seq 0 d)
+  end.
